@@ -63,7 +63,8 @@ func (f *Frame) doCall(c *cursor, site ssa.Instruction, call *ssa.CallCommon, re
 	// unknown function value
 	fv := f.val(call.Value)
 	f.guard(c, "nil", site, not(eq(fv, intLit(0))))
-	e.havoc(c.st, nil, true)
+	fams, all := f.dynEffects(call)
+	e.havoc(c.st, fams, all)
 	return f.freshResults(call.Signature(), c.st, "dyn")
 }
 
@@ -116,7 +117,23 @@ func (f *Frame) callFunc(c *cursor, site ssa.Instruction, callee *ssa.Function, 
 			}
 		}
 	}
-	spec := P.Specs.Funcs[key]
+	// implicit precondition of unexported functions: node parameters are not nil
+	{
+		for i, p := range callee.Params {
+			if i == 0 && callee.Signature.Recv() != nil {
+				continue
+			}
+			if i < len(args) && f.implicitNonNil(callee, p.Type()) {
+				a := f.val(args[i])
+				if a.Sort == SInt {
+					f.guard(c, "nil", site, not(eq(a, intLit(0))))
+				} else if a.Sort == SIface {
+					f.guard(c, "nil", site, not(eq(ifTag(a), intLit(0))))
+				}
+			}
+		}
+	}
+	spec := P.specFor(callee)
 	if spec == nil && callee.Pkg != nil && callee.Parent() == nil {
 		if _, ok := P.Specs.DefaultOpaque[callee.Pkg.Pkg.Name()]; ok {
 			spec = &FuncSpec{Key: key, Opaque: true}
@@ -632,12 +649,23 @@ func (f *Frame) runDefers(c *cursor) {
 	e := f.e
 	for i := len(f.deferSt) - 1; i >= 0; i-- {
 		d := f.deferSt[i]
-		// a defer inside a loop would run once per iteration: not modelled
+		// a defer inside a loop runs once per iteration that registered it: summarised
+		// by forgetting everything (the deferred functions are verified on their own)
+		inLoop := false
 		for _, li := range f.loops {
 			if li.body[d.instr.Block()] {
-				e.fail("%s: defer inside a loop", f.fn.Name())
-				return
+				inLoop = true
 			}
+		}
+		if inLoop {
+			fams, all := f.dynEffects(&d.instr.Call)
+			if sc := d.instr.Call.StaticCallee(); sc != nil && e.P.Funcs[funcKey(sc)] == sc {
+				ef := e.P.effectsOf(sc, e.U)
+				fams, all = ef.Fams, ef.All
+			}
+			e.havoc(c.st, fams, all)
+			e.warn("%s: deferred call registered in a loop summarised by havoc", f.fn.Name())
+			continue
 		}
 		g := d.reach // registered on this path?
 		before := c.st.clone()
@@ -662,4 +690,66 @@ func describeCall(call *ssa.CallCommon) string {
 		return fn.Name()
 	}
 	return strings.TrimSpace(call.Value.Name())
+}
+
+// implicitNonNil: parameters of unexported functions whose type is a node
+// pointer/interface of a package with "wf elems" are never nil.
+func (f *Frame) implicitNonNil(callee *ssa.Function, t types.Type) bool {
+	if callee.Object() != nil && callee.Object().Exported() {
+		return false
+	}
+	if !f.elemNonNil(t) {
+		return false
+	}
+	switch t.Underlying().(type) {
+	case *types.Pointer:
+		return true
+	}
+	return false
+}
+
+// specFor finds the contract block of a function: its own, or the wildcard
+// block of its receiver type ("(*T).*").
+func (P *Program) specFor(fn *ssa.Function) *FuncSpec {
+	key := funcKey(fn)
+	if sp := P.Specs.Funcs[key]; sp != nil {
+		return sp
+	}
+	if fn.Signature.Recv() != nil && fn.Pkg != nil {
+		rk := fn.Pkg.Pkg.Name() + ".(" + strings.TrimPrefix(typeName(fn.Signature.Recv().Type()), fn.Pkg.Pkg.Name()+".") + ").*"
+		rk = strings.Replace(rk, "(*"+fn.Pkg.Pkg.Name()+".", "(*", 1)
+		if sp := P.Specs.Funcs[rk]; sp != nil {
+			return sp
+		}
+	}
+	return nil
+}
+
+// dynEffects: effects of calling a func value; when no func of that
+// signature can enter the package from outside, the union over the
+// package's own closures of that signature.
+func (f *Frame) dynEffects(call *ssa.CallCommon) (map[string]Sort, bool) {
+	e := f.e
+	pkg := f.fn.Pkg
+	if pkg == nil && f.fn.Parent() != nil {
+		pkg = f.fn.Parent().Pkg
+	}
+	if pkg == nil || call.IsInvoke() {
+		return nil, true
+	}
+	cs, closed := e.P.closuresOfSig(pkg, call.Signature())
+	if !closed {
+		return nil, true
+	}
+	fams := map[string]Sort{}
+	for _, c := range cs {
+		ef := e.P.effectsOf(c, e.U)
+		if ef.All {
+			return nil, true
+		}
+		for k, s := range ef.Fams {
+			fams[k] = s
+		}
+	}
+	return fams, false
 }
